@@ -14,7 +14,7 @@ from ..tools.docstrings import fill_in_docstring
 from ..tools.misc import get_common_dtype
 from ..tools.plotting import PlotReference, plot_on_figure
 from .datafield_base import DataFieldBase
-from .scalar import ScalarField
+from .scalar import ScalarField, _evaluate_expression_on_grid
 from .vectorial import VectorField
 
 if TYPE_CHECKING:
@@ -106,9 +106,6 @@ class Tensor2Field(DataFieldBase):
                 consts["cartesian"] = np.moveaxis(coords_cart, -1, 0)
             assert "cartesian" in consts
 
-        # obtain the coordinates of the grid points
-        points = [grid.cell_coords[..., i] for i in range(grid.num_axes)]
-
         # evaluate all components at all points
         data: list[list[NumericArray]] = [[None] * grid.dim for _ in range(grid.dim)]  # type: ignore
         for i in range(grid.dim):
@@ -121,7 +118,9 @@ class Tensor2Field(DataFieldBase):
                     repl=grid.c._axes_alt_repl,
                     allow_indexed=True,
                 )
-                values = np.broadcast_to(expr(*points), grid.shape)
+                values = np.broadcast_to(
+                    _evaluate_expression_on_grid(expr, grid), grid.shape
+                )
                 data[i][j] = values
 
         # create tensor field from the data
